@@ -25,6 +25,16 @@ RULE = (
 CFGS = [(v, p, lm, q) for v in (0, 1) for p in (True, False) for lm in (1, 2) for q in (0, 1, 2)]
 
 
+def _delivered(kind, v, p):
+    """Is an item of this kind handed out under validate=v, parsed=p?  (short = a legal frame with
+    fewer than two payload bytes: it carries no message, so only the raw-only mode returns it)"""
+    if kind == "frame":
+        return True
+    if kind == "damaged":
+        return v == 0 or not p
+    return not p
+
+
 def attrs(msg):
     """Everything a caller can see of a decoded message: attributes, string form, serialised bytes."""
     if msg is None:
@@ -41,7 +51,7 @@ def judge(case):
     source = b"".join(i["data"] for i in its)
     bounds, pos = [], 0
     for i in its:
-        if i["kind"] in ("frame", "damaged"):
+        if i["kind"] in ("frame", "damaged", "short"):
             bounds.append((pos, pos + len(i["data"]), i))
         pos += len(i["data"])
     all_valid = all(i["kind"] != "damaged" for i in its)
@@ -63,8 +73,7 @@ def judge(case):
             if (a, b) not in legal:
                 out.bad("frame-boundary-moved",
                         f"{name}: pair delivered from [{a},{b}), frames lie at {sorted(legal)}")
-        want = [(a, b) for a, b, i in bounds
-                if i["kind"] == "frame" or v == 0 or not p]
+        want = [(a, b) for a, b, i in bounds if _delivered(i["kind"], v, p)]
         got = [(a, b) for a, b, _r, _m in pairs]
         if got != want:
             if v == 0 and p and len(got) < len(want):
@@ -104,8 +113,9 @@ def judge(case):
         for v in (0, 1):
             for lm in (1, 2):
                 for q in (0, 1, 2):
+                    shorts = {(a, b) for a, b, i in bounds if i["kind"] == "short"}
                     on = [(a, b, r) for a, b, r, _ in results[(v, True, lm, q)][0]]
-                    off = [(a, b, r) for a, b, r, _ in results[(v, False, lm, q)][0]]
+                    off = [(a, b, r) for a, b, r, _ in results[(v, False, lm, q)][0] if (a, b) not in shorts]
                     if on != off:
                         out.bad("parsed-off-changes-frames",
                                 f"{case['name']} validate={v} labelmsm={lm} q={q}: raw sequences differ")
@@ -170,7 +180,7 @@ def _cross(case, bounds, runs, out, label):
     frame; every other configuration must take the same bytes for each frame it delivers, deliver
     all of them when it does not validate, and exactly the undamaged ones when it does.
     """
-    base_key = (0, True, 1, 0)
+    base_key = (0, False, 1, 0)  # validation off, parsing off: every frame-like item is handed out
     base = runs.get(base_key)
     if base is None:
         return
@@ -183,10 +193,10 @@ def _cross(case, bounds, runs, out, label):
         v, p, lm, q = key
         name = (f"{case['name']}: reader(validate={v}, parsed={p}, labelmsm={lm}, quitonerror={q}) over "
                 f"{label}")
-        if v == 0 or not p:
+        if kinds is not None:
+            want = [x for x in base if _delivered(kinds[(x[0], x[1])], v, p)]
+        elif not p:
             want = base
-        elif kinds is not None:
-            want = [x for x in base if kinds[(x[0], x[1])] == "frame"]
         else:
             it = iter(base)  # at least a subsequence of what the permissive reader took
             if all(any(x == y for y in it) for x in got):
@@ -195,7 +205,7 @@ def _cross(case, bounds, runs, out, label):
         if got != want:
             out.bad("option-changes-bytes-taken",
                     f"{name} leaves the stream at {[(a, b) for a, b, _ in got]} after each frame, "
-                    f"reader(validate=0, parsed=True) over the same kind of stream at "
+                    f"reader(validate=0, parsed=False) over the same kind of stream at "
                     f"{[(a, b) for a, b, _ in base]}")
             return
 
@@ -294,6 +304,13 @@ def alphabet(tier):
             if g["data"][-3:] != tr:
                 out.append({"name": f"{g['name']}~{tag}", "data": g["data"][:-3] + tr, "kind": "damaged",
                             "payload": g["payload"]})
+    # legal frames that carry no message (0 / 1 payload bytes), one with a sync byte ending its trailer
+    out.append({"name": "F0", "data": f["F0"]["data"], "kind": "short", "payload": None})
+    for v in range(256):
+        fr = pinned.frame(bytes([v]))
+        if fr[-1] in (0xD3, 0x24, 0xB5):
+            out.append({"name": f"F1:{v:02x}", "data": fr, "kind": "short", "payload": None})
+            break
     out.append({"name": "nmeaG", "data": items.nmea("G"), "kind": "skip", "payload": None})
     out.append({"name": "ubx8", "data": items.ubx(b"\xd3\x00\xb5\x62\x24\x47\x0a\xd3"),
                 "kind": "skip", "payload": None})
@@ -318,6 +335,12 @@ def cases(tier):
                                                                   "Fmsm~zero", "Fnested~zero")]
     for combo in itertools.product(tri, repeat=3):
         out.append({"name": "+".join(i["name"] for i in combo), "items": list(combo)})
+    # a long run of damaged frames between two good ones (what validation skips must not pile up)
+    byname = {a["name"]: a for a in alpha}
+    for n in ((1200,) if tier == "quick" else (1200, 5000)):
+        for dn in ("F19~0", "F2~zero"):
+            run = [byname["F2"]] + [byname[dn]] * n + [byname["F19"]]
+            out.append({"name": f"F2+{n}x{dn}+F19", "items": run})
     return out
 
 
